@@ -554,6 +554,11 @@ class SqlImpl(TableImpl):
                 right_ast = verbs.Select(nd.right, reordered_cols)
                 right_table, right_query, right_sqa_expr = cls.compile_ast(right_ast, needed_cols)
 
+            # The result of a union is unordered and an ORDER BY is not allowed in the
+            # operands of a compound select (a preceding `slice_head` forces a subquery).
+            query.order_by = []
+            right_query.order_by = []
+
             # Build left and right select statements
             left_sel = cls.compile_query(table, query, sqa_expr)
             right_sel = cls.compile_query(right_table, right_query, right_sqa_expr)
